@@ -81,7 +81,9 @@ class Counter(object):
 def _case(draw, target, large=False):
     route = "api" if large else draw(st.sampled_from(["api", "potable"]))
     if target in gen.EAM_TARGETS:
-        m = draw(gen.eam_model(gen.EAM_TARGETS[target], 2 if large else 1, 2, depth=0, max_customs=0))
+        # large: three elements, so that blocks worth more than a megabyte are complete before the last element's
+        # functions (and the pair functions, if any are declared) are evaluated
+        m = draw(gen.eam_model(gen.EAM_TARGETS[target], 3 if large else 1, 3 if large else 2, depth=0, max_customs=0))
         m["grid"] = {"nr": draw(st.integers(3, 7)), "cutoff": draw(st.sampled_from([2.0, 3.5, 5.0])),
                      "nrho": draw(st.integers(3, 6)), "cutoff_rho": draw(st.sampled_from([1.0, 4.0]))}
         if large:
@@ -227,7 +229,9 @@ def _potable_text(m, kind, row):
     step = (g["cutoff_rho"] / (g["nrho"] - 1)) if rho_kind else (g["cutoff"] / (g["nr"] - 1))
     row = max(1, min(row, n - 1))
     limit = (row - 0.5) * step
-    secs.append(["Potential-Form", [["faulty(r)", "pymath.sqrt(%r - r)" % limit]]])
+    # ... or of the expression language's own sqrt / log (which evaluate to nan there instead of raising: F59)
+    formula = ["pymath.sqrt(%r - r)", "sqrt(%r - r)", "log(%r - r)", "pymath.log(%r - r)"][(row + len(kind)) % 4] % limit
+    secs.append(["Potential-Form", [["faulty(r)", formula]]])
     name = {"pair": "Pair", "embed": "EAM-Embed", "density": "EAM-Density", "dipole": "EAM-ADP-Dipole",
             "quadrupole": "EAM-ADP-Quadrupole"}[kind]
     sec = [s for s in secs if s[0] == name]
@@ -274,7 +278,13 @@ def _check_potable(m, v, stats, cli=False):
             fp = _fp(target)
             try:
                 tab.write(fp)
-                continue      # no failure reached (e.g. a species the writer ignores): nothing to check
+                # no failure reached (e.g. a species the writer ignores): nothing to check - except that a function
+                # which cannot be evaluated must not have been tabulated as 'nan' either
+                written = anymodel.normalise_output(target, fp.getvalue())
+                if "nan" in written.lower():
+                    v.append(("potable:no_failure:%s:%s" % (target, kind),
+                              "a %s function that is undefined from row %d on did not fail: the table holds nan\n%s" % (kind, row, text)))
+                continue
             except Exception as e:
                 left = fp.getvalue()
                 if len(left) != 0:
